@@ -196,6 +196,11 @@ var (
 	rLstClean = Rule{"ORD-LSTCLEAN", rules.OrdLstClean}
 	rBSScr    = Rule{"OWN-BSSCRATCH", rules.OwnBSScratch}
 	rEmptyCp  = Rule{"NIL-EMPTYCOPY", rules.NilEmptyCopy}
+	rUnread   = Rule{"ORD-UNREAD", rules.OrdUnread}
+	rOpCmt    = Rule{"TAB-OPCOMMENT", rules.TabOpComment}
+	rOpenStar = Rule{"ORD-OPENSTAR", rules.OrdOpenStar}
+	rSurr     = Rule{"TAB-SURROGATE", rules.TabSurrogate}
+	rAddr     = Rule{"NIL-ADDR", rules.NilAddr(rules.ScopeIon, 1)}
 	rFixedLST = Rule{"OWN-FIXEDLST", rules.OwnFixedLST}
 	rReflSet  = Rule{"TAB-REFLECTSET", rules.TabReflectSet}
 	rBounds   = Rule{"TAB-BOUNDS", rules.TabBounds}
@@ -232,16 +237,17 @@ var registry = map[string]*Property{
 		},
 	},
 	"C02": {
-		Decided:    "The text reader's finite tables equal the Ion 1.0 text tables: every escape with its code point and digit count, \\u and \\U refused inside clobs (TAB-ESCAPE, reader obligations); the 13 null.<type> names (TAB-NULLKW, reader obligations); every token the tokenizer can hand out at the start of a value has an arm in the reader's value dispatch (TAB-TOKEN, value arms); inside {{ }} no comment-skipping whitespace routine is reachable, so base64 text containing '//' or '/*' decodes (OWN-LOBWS); no comparison treats symbol ID 0 ($0) differently from the positive IDs (TAB-SID0); the timestamp parser separates second precision, nanosecond precision (up to nine digits) and rounding, and valid from invalid offsets, at the indices and values the grammar prescribes (TAB-BOUNDS, text timestamp obligations). Every function of the text tokenizer that recognises whitespace by comparing with ' ' and another whitespace character tests space, tab and line feed (TAB-WSSET); every caller of the comment-blind free function isStopChar looks for '/' itself (OWN-STOPCHAR). The code point of an escape in a string or symbol is never narrowed to a byte, and every function passes readEscapedChar the mode of the text kind it reads (TAB-ESCRUNE). String, long-string and quoted-symbol text is validated as UTF-8 (TAB-UTF8, text obligation).",
+		Decided:    "The text reader's finite tables equal the Ion 1.0 text tables: every escape with its code point and digit count, \\u and \\U refused inside clobs (TAB-ESCAPE, reader obligations); the 13 null.<type> names (TAB-NULLKW, reader obligations); every token the tokenizer can hand out at the start of a value has an arm in the reader's value dispatch (TAB-TOKEN, value arms); inside {{ }} no comment-skipping whitespace routine is reachable, so base64 text containing '//' or '/*' decodes (OWN-LOBWS); no comparison treats symbol ID 0 ($0) differently from the positive IDs (TAB-SID0); the timestamp parser separates second precision, nanosecond precision (up to nine digits) and rounding, and valid from invalid offsets, at the indices and values the grammar prescribes (TAB-BOUNDS, text timestamp obligations). Every function of the text tokenizer that recognises whitespace by comparing with ' ' and another whitespace character tests space, tab and line feed (TAB-WSSET); every caller of the comment-blind free function isStopChar looks for '/' itself (OWN-STOPCHAR). The code point of an escape in a string or symbol is never narrowed to a byte, and every function passes readEscapedChar the mode of the text kind it reads (TAB-ESCRUNE). String, long-string and quoted-symbol text is validated as UTF-8 (TAB-UTF8, text obligation). Next and ReadValue agree on where an operator or dot token's text starts (ORD-UNREAD); every scanner of an operator run stops in front of '//' and '/*' (TAB-OPCOMMENT); the '*' opening a block comment is consumed before the scan for '*/' (ORD-OPENSTAR); \\u surrogate pairs are combined (TAB-SURROGATE).",
 		Necessary:  "An escape decoded to another code point, a null.<type> name mapped to another type, or a value-start token without a dispatch arm makes a legal spelling decode to another value or to an error.",
 		NotDecided: "number, string-segmentation, comment/whitespace and timestamp grammar (behaviour of loops over characters); $n handling",
-		Technique:  tabTech + "; who-may-call check for the lob whitespace routines; spelling-insensitive boundary extraction for TAB-BOUNDS" + "; constant-set agreement of whitespace tests; who-may-call for isStopChar" + "; value-flow check of the escape rune and constant propagation of the escape mode through helper parameters" + "; presence of the UTF-8 validation on the text side",
+		Technique:  tabTech + "; who-may-call check for the lob whitespace routines; spelling-insensitive boundary extraction for TAB-BOUNDS" + "; constant-set agreement of whitespace tests; who-may-call for isStopChar" + "; value-flow check of the escape rune and constant propagation of the escape mode through helper parameters" + "; presence of the UTF-8 validation on the text side" + "; sibling agreement of tokenizer exits per ReadValue arm (must-precede of unread); presence of the comment-start test in operator-run loops; must-precede of read() before the block-comment scan",
 		DesignRef:  "DESIGN.md §3.4, §4 C02",
 		Rules: []Rule{
 			only(rEscape, 18, whatHas("reader:")), only(rNullKW, 13, whatHas("reader:")), only(rToken, 14, whatHas("value arm")), rLobWS, rSid0, only(rBounds, 6, funcHas("ParseTimestamp", "computeTimezoneKind", "isIonYear")),
 			rWSSet, rStopChar,
 			rEscRune,
 			only(rUTF8, 1, funcHas("tokenizer")),
+			rUnread, rOpCmt, rOpenStar, rSurr,
 		},
 	},
 	"C03": {
@@ -294,25 +300,26 @@ var registry = map[string]*Property{
 		},
 	},
 	"C07": {
-		Decided:    "The Reader error state is absorbing and every effect of a Reader method happens after 'no error yet' was established (ERR-ABSORB-R); an error obtained from the input layer is made sticky before it is returned (ERR-STICKY-R); end of input inside an open binary container is never a nil-error return (ORD-EOFDEPTH); the text reader ends a sequence in the value position only when no annotations are pending (ORD-DANGLE); a negative integer with a zero magnitude is rejected whichever representation the magnitude was decoded into (ORD-NEGZERO); in the reader files no error is discarded (ERR-DROP) and no path from a non-nil error test reaches an exit without consuming the error or returning a definitely non-nil one (ERR-SWAP). Clob-reading functions read escapes in clob mode, so \\u and \\U are refused there (TAB-ESCRUNE, mode obligations). The bitstream reports the end of a container only after looking whether a field name is pending (ORD-DANGLE-BIN); both readers validate string text as UTF-8 (TAB-UTF8).",
+		Decided:    "The Reader error state is absorbing and every effect of a Reader method happens after 'no error yet' was established (ERR-ABSORB-R); an error obtained from the input layer is made sticky before it is returned (ERR-STICKY-R); end of input inside an open binary container is never a nil-error return (ORD-EOFDEPTH); the text reader ends a sequence in the value position only when no annotations are pending (ORD-DANGLE); a negative integer with a zero magnitude is rejected whichever representation the magnitude was decoded into (ORD-NEGZERO); in the reader files no error is discarded (ERR-DROP) and no path from a non-nil error test reaches an exit without consuming the error or returning a definitely non-nil one (ERR-SWAP). Clob-reading functions read escapes in clob mode, so \\u and \\U are refused there (TAB-ESCRUNE, mode obligations). The bitstream reports the end of a container only after looking whether a field name is pending (ORD-DANGLE-BIN); both readers validate string text as UTF-8 (TAB-UTF8). An unterminated '/*/' is not taken for a complete comment (ORD-OPENSTAR).",
 		Necessary:  "A Next that continues after an error, an input-layer error that never reaches Err(), a truncated container read as complete (F14, fixed), 'a::' accepted (F15, fixed) or a dropped tokenizer/bitstream error each let malformed input finish with Err()==nil or let Next resume.",
 		NotDecided: "that each grammar violation in the property's catalogue is detected by some check in the tokenizer or bitstream",
-		Technique:  ssaTech + "; phi-edge inspection of the negative-zero flag" + "; constant propagation of the escape mode through helper parameters" + "; path search from the end-of-container test to the EOF store; sibling check of the UTF-8 validation",
+		Technique:  ssaTech + "; phi-edge inspection of the negative-zero flag" + "; constant propagation of the escape mode through helper parameters" + "; path search from the end-of-container test to the EOF store; sibling check of the UTF-8 validation" + "; must-precede of read() before the block-comment scan",
 		DesignRef:  "DESIGN.md §3.1, §3.5, §4 C07",
 		Rules: []Rule{
 			rAbsorbR, rStickyR, rOrdEOFDepth, rOrdDangle, rNegZero,
 			{"ERR-DROP", rules.ErrDrop(rules.ScopeReader, nil, 150)}, {"ERR-SWAP", rules.ErrSwap(rules.ScopeReader, rules.SwapSuppReader, 150)},
 			only(rEscRune, 3, whatHas("escape mode")),
 			rDangleB, rUTF8,
+			rOpenStar,
 		},
 	},
 	"C08": {
-		Decided:    "Every Reader method exit that refuses a call (returns a fresh *UsageError) is free of side effects on the reader (REFUSE-PURE); every token the tokenizer hands out as an unfinished value has a skip arm (TAB-TOKEN, skip arms); StepIn enters a nesting level only for a non-null container in both implementations (ORD-STEPIN); none of the lob readers and skippers reaches the comment-skipping whitespace routine, so skip and read agree that '/' inside {{ }} is data (OWN-LOBWS); in binary, reading a value and skipping it hand the same declared length to the primitive readers, so both end at the same byte (TAB-BUDGET). Every bitstream method that leaves a value passes clear() on each path to a successful exit (ORD-BSCLEAR); the text reader's raw scan for a container's end starts only when the tokenizer has no unfinished value (ORD-TOKFINISH). The bitstream keeps no value data in fields that clear() does not reset, so what a value decodes to does not depend on which values were decoded before (OWN-BSSCRATCH).",
+		Decided:    "Every Reader method exit that refuses a call (returns a fresh *UsageError) is free of side effects on the reader (REFUSE-PURE); every token the tokenizer hands out as an unfinished value has a skip arm (TAB-TOKEN, skip arms); StepIn enters a nesting level only for a non-null container in both implementations (ORD-STEPIN); none of the lob readers and skippers reaches the comment-skipping whitespace routine, so skip and read agree that '/' inside {{ }} is data (OWN-LOBWS); in binary, reading a value and skipping it hand the same declared length to the primitive readers, so both end at the same byte (TAB-BUDGET). Every bitstream method that leaves a value passes clear() on each path to a successful exit (ORD-BSCLEAR); the text reader's raw scan for a container's end starts only when the tokenizer has no unfinished value (ORD-TOKFINISH). The bitstream keeps no value data in fields that clear() does not reset, so what a value decodes to does not depend on which values were decoded before (OWN-BSSCRATCH). The operator readers and the whitespace/comment skipper used when a container is skipped agree on where an operator ends (TAB-OPCOMMENT).",
 		Necessary:  "A refused StepIn/StepOut/accessor that changes cursor state, or a value kind that cannot be skipped, makes later results depend on the navigation.",
 		NotDecided: "agreement of skip and read on where an arbitrary value ends (finding F17, clob text containing '}', was repaired but no rule would detect its return)",
-		Technique:  ssaTech + "; " + tabTech + "; enum value-set and nil-fact dominance at nesting-level pushes; who-may-call check for the lob whitespace routines" + "; must-pass-through of clear() after state stores; typestate of the tokenizer's unfinished flag (finisher summaries by fixed point) before a raw scan" + "; field-write census of the bitstream against clear()",
+		Technique:  ssaTech + "; " + tabTech + "; enum value-set and nil-fact dominance at nesting-level pushes; who-may-call check for the lob whitespace routines" + "; must-pass-through of clear() after state stores; typestate of the tokenizer's unfinished flag (finisher summaries by fixed point) before a raw scan" + "; field-write census of the bitstream against clear()" + "; presence of the comment-start test in operator-run loops",
 		DesignRef:  "DESIGN.md §3.1, §3.4, §4 C08",
-		Rules:      []Rule{rRefuse, only(rToken, 13, whatHas("skip arm")), rStepIn, rLobWS, rBudget, rBSClear, rTokFin, rBSScr},
+		Rules:      []Rule{rRefuse, only(rToken, 13, whatHas("skip arm")), rStepIn, rLobWS, rBudget, rBSClear, rTokFin, rBSScr, rOpCmt},
 	},
 	"C09": {
 		Decided:    "Every insertion into a symbol text index (buildIndex, symbolTableBuilder.Add, Build) happens only when the text is not present yet, with imports consulted before locals, or copies an existing index (ORD-FIRSTWINS); NewSymbolTokenBySID looks an ID up only after 0 <= sid <= MaxID() was established and rejects everything else (ORD-SIDBOUND); a local table resolves text through its imports before its own index on every path (ORD-IMPORTFIRST); Build neither writes to the builder nor hands the builder's own symbols/index storage to the built table (OWN-BUILD); every table object is built with an index that describes exactly the symbols it holds (TAB-INDEXPAIR). Every table sst.Adjust(n) returns has max_id n: a new table stores the parameter, the receiver is returned only under maxID == s.maxID (TAB-ADJUSTMAX).",
@@ -380,24 +387,25 @@ var registry = map[string]*Property{
 		},
 	},
 	"C16": {
-		Decided:    "Only the determinism clause: MarshalText asks for sorted map keys and with that option encodeMap sorts the keys before emitting any field (ORD-SORTMAP); nothing reachable from Marshal*/Encoder/Writer methods consults a time-, random- or schedule-dependent source, and every map range has an order-insensitive body (OWN-NONDET); the one narrowing on the encode path, int64(v.Uint()), happens only under reflect kinds whose values fit (NUM-NARROW, marshal.go); every struct type without exported fields that the decoder recognises by identity (big.Int, Decimal, Timestamp, time.Time) is recognised by the encoder before the generic field walk (TAB-OPAQUE); every reflect.Kind the decoder accepts as a target is dispatched on by the encoder (TAB-KIND); a Go string marshalled as a symbol is written by its text, never through the '$n'-interpreting string API (OWN-TEXTAUTH, marshal obligations); no append in the field, marshal and unmarshal code keeps results of repeated appends to one fixed base slice, so field index paths of siblings never share a backing array (OWN-APPENDALIAS). A case-insensitive field match never ends the field search before every candidate was compared exactly (ORD-EXACTFIRST); the comparator of the key sort compares the keys themselves (ORD-SORTMAP); no exported function ignores a named parameter (OWN-PARAMUSED). No function of marshal.go reaches a mutating reflect call: Marshal never writes through the value it is given (OWN-ENCPURE). No slice is copied by appending it to a nil slice, which would turn an empty value into a nil one (NIL-EMPTYCOPY).",
+		Decided:    "Only the determinism clause: MarshalText asks for sorted map keys and with that option encodeMap sorts the keys before emitting any field (ORD-SORTMAP); nothing reachable from Marshal*/Encoder/Writer methods consults a time-, random- or schedule-dependent source, and every map range has an order-insensitive body (OWN-NONDET); the one narrowing on the encode path, int64(v.Uint()), happens only under reflect kinds whose values fit (NUM-NARROW, marshal.go); every struct type without exported fields that the decoder recognises by identity (big.Int, Decimal, Timestamp, time.Time) is recognised by the encoder before the generic field walk (TAB-OPAQUE); every reflect.Kind the decoder accepts as a target is dispatched on by the encoder (TAB-KIND); a Go string marshalled as a symbol is written by its text, never through the '$n'-interpreting string API (OWN-TEXTAUTH, marshal obligations); no append in the field, marshal and unmarshal code keeps results of repeated appends to one fixed base slice, so field index paths of siblings never share a backing array (OWN-APPENDALIAS). A case-insensitive field match never ends the field search before every candidate was compared exactly (ORD-EXACTFIRST); the comparator of the key sort compares the keys themselves (ORD-SORTMAP); no exported function ignores a named parameter (OWN-PARAMUSED). No function of marshal.go reaches a mutating reflect call: Marshal never writes through the value it is given (OWN-ENCPURE). No slice is copied by appending it to a nil slice, which would turn an empty value into a nil one (NIL-EMPTYCOPY). reflect.Value.Addr is called only under CanAddr() or on a value addressable by construction (NIL-ADDR).",
 		Necessary:  "Go's map iteration order is random, so an unsorted map encode or any other nondeterminism source makes MarshalText output differ between runs for the same value.",
 		NotDecided: "value equality after the round trip: field paths through embedded structs, name matching, map keys, pointer/nil handling — behaviour of reflection over caller types",
-		Technique:  "SSA dominance + call-graph reachability from the output API; type-identity and reflect.Kind tables extracted from SSA comparisons; loop/base analysis of append calls; value flow for OWN-TEXTAUTH" + "; loop-structure check around EqualFold (no return reachable without a back edge); comparator purity check; SSA referrer check of parameters" + "; call-graph reachability of mutating reflect methods from marshal.go" + "; shape check of append calls with a nil base",
+		Technique:  "SSA dominance + call-graph reachability from the output API; type-identity and reflect.Kind tables extracted from SSA comparisons; loop/base analysis of append calls; value flow for OWN-TEXTAUTH" + "; loop-structure check around EqualFold (no return reachable without a back edge); comparator purity check; SSA referrer check of parameters" + "; call-graph reachability of mutating reflect methods from marshal.go" + "; shape check of append calls with a nil base" + "; branch-fact guard of reflect.Value.Addr",
 		DesignRef:  "DESIGN.md §3.5, §3.6, §4 C16",
-		Rules:      []Rule{rOrdSortMap, rOwnNondet, only(rNarrow, 1, posHas("ion/marshal.go")), rOpaque, rKind, only(rTextAuth, 1, posHas("ion/marshal.go", "ion/unmarshal.go")), only(rAppAlias, 2, posHas("ion/fields.go", "ion/marshal.go", "ion/unmarshal.go")), rExactFst, rParamUse, rEncPure, rEmptyCp},
+		Rules:      []Rule{rOrdSortMap, rOwnNondet, only(rNarrow, 1, posHas("ion/marshal.go")), rOpaque, rKind, only(rTextAuth, 1, posHas("ion/marshal.go", "ion/unmarshal.go")), only(rAppAlias, 2, posHas("ion/fields.go", "ion/marshal.go", "ion/unmarshal.go")), rExactFst, rParamUse, rEncPure, rEmptyCp, rAddr},
 	},
 	"C17": {
-		Decided:    "In unmarshal.go: token text and the other nil-if-unknown pointer fields are tested before use (NIL-FIELD); accessor results are dereferenced only under the non-null precondition (NIL-ACC, NIL-ARG); Decoder.Decode/DecodeTo return the reader's error or ErrNoInput, never nil, when Next() reports no value (ORD-NOINPUT); every reflective numeric store is dominated by the matching Overflow test on the same value and operand, every signed-to-unsigned conversion by a sign test, every big.Int extraction by IsUint64 (NUM-REFLECT, NUM-NARROW, NUM-BIG in unmarshal.go); a reflective Set under a type-identity test stores a value of exactly that type (TAB-REFLECTSET); every index in unmarshal.go is in bounds (NUM-INDEX, unmarshal obligations). A case-insensitive field match never ends the field search before every candidate was compared exactly (ORD-EXACTFIRST); under each IntSize() case the accessor reached is wide enough (TAB-INTSIZE); no typed accessor answers successfully before the value's type was read (TAB-ACCTYPE). No slice is copied by appending it to a nil slice (NIL-EMPTYCOPY).",
+		Decided:    "In unmarshal.go: token text and the other nil-if-unknown pointer fields are tested before use (NIL-FIELD); accessor results are dereferenced only under the non-null precondition (NIL-ACC, NIL-ARG); Decoder.Decode/DecodeTo return the reader's error or ErrNoInput, never nil, when Next() reports no value (ORD-NOINPUT); every reflective numeric store is dominated by the matching Overflow test on the same value and operand, every signed-to-unsigned conversion by a sign test, every big.Int extraction by IsUint64 (NUM-REFLECT, NUM-NARROW, NUM-BIG in unmarshal.go); a reflective Set under a type-identity test stores a value of exactly that type (TAB-REFLECTSET); every index in unmarshal.go is in bounds (NUM-INDEX, unmarshal obligations). A case-insensitive field match never ends the field search before every candidate was compared exactly (ORD-EXACTFIRST); under each IntSize() case the accessor reached is wide enough (TAB-INTSIZE); no typed accessor answers successfully before the value's type was read (TAB-ACCTYPE). No slice is copied by appending it to a nil slice (NIL-EMPTYCOPY). reflect.Value.Addr is called only under CanAddr() or on a value addressable by construction (NIL-ADDR).",
 		Necessary:  "A symbol without text ($0) or a typed null reaching an unguarded dereference panics instead of returning an error (F9, fixed); a Decoder that returns nil at the end of the stream never reports ErrNoInput.",
 		NotDecided: "the value × target conversion table, the reader's position after a failed decode",
-		Technique:  "SSA must-dataflow of nil facts; path search to exits; branch-fact dominance of Overflow*/IsUint64 tests; " + numTech + "; loop-structure check around EqualFold; enum value-set dataflow of IntSize(); path search for a type read before successful exits of accessors" + "; shape check of append calls with a nil base",
+		Technique:  "SSA must-dataflow of nil facts; path search to exits; branch-fact dominance of Overflow*/IsUint64 tests; " + numTech + "; loop-structure check around EqualFold; enum value-set dataflow of IntSize(); path search for a type read before successful exits of accessors" + "; shape check of append calls with a nil base" + "; branch-fact guard of reflect.Value.Addr",
 		DesignRef:  "DESIGN.md §3.2, §3.5, §4 C17",
 		Rules: []Rule{
 			{"NIL-FIELD", rules.NilField(rules.ScopeUnmarshal, 2)}, {"NIL-ACC", rules.NilAcc(rules.ScopeUnmarshal, 10)}, {"NIL-ARG", rules.NilArg(rules.ScopeUnmarshal, 0)}, rOrdNoInput,
 			rReflect, only(rBig, 1, posHas("ion/unmarshal.go")), only(rNarrow, 2, posHas("ion/unmarshal.go")), rReflSet, only(rIndex, 1, posHas("ion/unmarshal.go")),
 			rExactFst, rIntSize, rAccType,
 			rEmptyCp,
+			rAddr,
 		},
 	},
 	"C18": {
@@ -466,6 +474,11 @@ var devRules = map[string]Rule{
 	"ORD-LSTCLEAN":    rLstClean,
 	"OWN-BSSCRATCH":   rBSScr,
 	"NIL-EMPTYCOPY":   rEmptyCp,
+	"ORD-UNREAD":      rUnread,
+	"TAB-OPCOMMENT":   rOpCmt,
+	"ORD-OPENSTAR":    rOpenStar,
+	"TAB-SURROGATE":   rSurr,
+	"NIL-ADDR":        rAddr,
 	"NUM-NARROW-TU":   {"NUM-NARROW", rules.NumNarrow(rules.Scope{Name: "textutils.go", Pkgs: []string{"ion"}, Files: []string{"textutils.go"}}, nil, 0)},
 	"NUM-NARROW":      {"NUM-NARROW", rules.NumNarrow(rules.ScopeNum, rules.NarrowResiduals, 0)},
 	"NUM-SHIFT":       {"NUM-SHIFT", rules.NumShift(rules.ScopeNum, rules.ShiftResiduals, 0)},
